@@ -391,11 +391,13 @@ pub struct Ctx {
     /// tiny workload for Miri
     pub miri: bool,
     pub tls_server: Option<crate::tls::TlsMaterial>,
+    /// multiplier for the random parts of the thorough tier (per property, see main.rs)
+    pub thorough_mult: f64,
 }
 impl Ctx {
     pub fn n(&self, quick: u64, thorough: u64) -> u64 {
-        let base = if self.thorough { thorough } else { quick };
-        ((base as f64 * self.scale).ceil() as u64).max(1)
+        let base = if self.thorough { thorough as f64 * self.thorough_mult } else { quick as f64 };
+        ((base * self.scale).ceil() as u64).max(1)
     }
     pub fn wants(&self, group: &str, idx: u64) -> bool {
         match &self.only {
